@@ -93,6 +93,15 @@ Theorem C20_call_on_serialised_replies : forall (A B : Type) cfg (h : A -> N -> 
   fst (consume fuel cfg (start_retry q T) w acc h fin) = run_handler h fin acc (map x_item xs).
 Proof. exact @call_on_serialised_replies. Qed.
 
+Theorem C20_call_on_serialised_reply_single : forall (A B : Type) cfg (h : A -> N -> value -> option (cres B) * A) fin q T id k v b rest fuel w acc,
+  q_mode q = Single ->
+  w_cur w = Some id -> valid_id w id -> settled (get_conn w id) ->
+  k_buf (get_conn w id) = [128; 0; 0] ++ b ++ rest ->
+  nodup_cf (map v_cf (q_replies q)) = true -> reply_ok (q_replies q) (k, v, b) -> (1 < fuel)%nat ->
+  fst (consume fuel cfg (start_retry q T) w acc h fin) = run_handler h fin acc [(k, v)].
+Proof. exact @call_on_serialised_reply_single. Qed.
+Print Assumptions C20_call_on_serialised_reply_single.
+
 (* non-vacuity of the end-to-end theorem on the shipped tables: a partial reversal answered by an intermediate status and a completion
    (their bytes are whatever the model serialises, not pinned here), followed by two foreign bytes *)
 Definition ex_q := seq_of "zvt::sequences::PartialReversal" [6; 37; 0].
